@@ -99,6 +99,12 @@ fn main() {
     // Panics of the subject are caught per case where the property is about totality; anything
     // else that panics is the harness itself -> machinery exit code.
     watch::start(prop, std::time::Duration::from_secs(if prop == "C02" { 20 } else if tier == Tier::Thorough { 300 } else { 90 }), matches!(prop, "C02" | "C03"));
+    // a bug in the harness must not take the machine down: cap the address space (allocation failure
+    // then aborts this process = machinery exit, never a verdict)
+    unsafe {
+        let lim = libc::rlimit { rlim_cur: 40u64 << 30, rlim_max: 40u64 << 30 };
+        libc::setrlimit(libc::RLIMIT_AS, &lim);
+    }
     // scratch files of earlier runs (fixtures written per case) that were left behind: drop what is older than an hour
     if let Ok(rd) = std::fs::read_dir("/verif/target/tmp") {
         for e in rd.flatten() {
